@@ -22,6 +22,8 @@ def exercise(ctx):
     settings = {s["selector"]: s.get("auto_populated_fields") for s in ctx.inner["settings"]}
     transports = ctx.options["transport"].split("+")
     kinds = (["sync", "async"] if "grpc" in transports else []) + (["rest"] if "rest" in transports else [])
+    if ctx.options.get("ads"):
+        kinds = ["sync"]          # the ads template set has no asyncio client
     seen_ids = set()
     for f, svc in ctx.services():
         for m in svc["methods"]:
